@@ -90,6 +90,8 @@ class LFDomain:
         self.exact_fired = 0
         self.global_memo = {}
         self.trust_stage0 = True
+        self.feas_relevant_only = False
+        self._cat_cache = {}
         self.share_memo = False   # share divmod atoms across paths (only for fork-free kernels)
         self.feas_timeout_ms = 4000
         self.lemmas = []  # extra LFConds assumed in every query (justified by the harness)
@@ -461,13 +463,50 @@ class LFDomain:
     def assume(self, path, c, orig, branch):
         pass
 
+    def or_conds(self, pa, pb):
+        def conj(cs):
+            cs = [c for c in cs if c is not True]
+            if not cs:
+                return True
+            return cs[0] if len(cs) == 1 else LFCond("and", args=list(cs))
+        a, b = conj(pa), conj(pb)
+        if a is True or b is True:
+            return True
+        if isinstance(a, LFCond) and isinstance(b, LFCond) and self.cond_key(self.not_(a)) == self.cond_key(b):
+            return True     # exhaustive case split
+        return LFCond("or", args=[a, b])
+
+    def same_under(self, path_with_pc, a, b):
+        """is a == b on the given path (its path condition)?"""
+        d = LF.of(a) - LF.of(b)
+        d = LF.of(self.simp(path_with_pc, d))
+        if not d.t and d.c == 0:
+            return True
+        ed = self.expand(d)
+        if not ed.t and ed.c == 0:
+            return True
+        return self.check(path_with_pc, [LFCond("!=", d)], "merge", timeout_ms=10000, relevant_only=True) == "unsat"
+
+    def merge_value(self, ex, A, B, npc, a, b):
+        from .exec import INDET
+        if hasattr(a, "opaque_merge"):
+            return a.opaque_merge(self, ex, A, B, a, b)
+        if hasattr(b, "opaque_merge"):
+            return b.opaque_merge(self, ex, A, B, a, b)
+        if isinstance(a, (int, LF)) and isinstance(b, (int, LF)) and not isinstance(a, bool) and not isinstance(b, bool):
+            if self.same_under(B, a, b):
+                return a
+            if self.same_under(A, a, b):
+                return b
+        return INDET
+
     def cond_key(self, c):
         if c.f is not None:
             return (c.op, c.f.key())
         return (c.op, tuple(self.cond_key(a) if isinstance(a, LFCond) else a for a in (c.args or [])))
 
     def feasible(self, path, conds):
-        r = self.check(path, conds, "feasibility", timeout_ms=self.feas_timeout_ms)
+        r = self.check(path, conds[len(path.pc):] if conds[:len(path.pc)] == path.pc else conds, "feasibility", timeout_ms=self.feas_timeout_ms, relevant_only=self.feas_relevant_only)
         return r != "unsat"
 
     # ------------------------------------------------------------ solver
@@ -489,6 +528,8 @@ class LFDomain:
             return self.z3form(self.expand(c.f), zv) != 0
         if c.op == "modne":   # f mod n != 0
             return self.z3form(self.expand(c.f), zv) % c.args[0] != 0
+        if c.op == "modeq":   # f mod n == 0
+            return self.z3form(self.expand(c.f), zv) % c.args[0] == 0
         if c.op == "and":
             return z3.And([self.z3cond(a, zv) for a in c.args])
         if c.op == "or":
@@ -496,6 +537,18 @@ class LFDomain:
         if c.op == "not":
             return z3.Not(self.z3cond(c.args[0], zv))
         raise ExecError("cond " + c.op)
+
+    def _catoms(self, c):
+        """atoms of a condition (cached on the object)"""
+        if isinstance(c, bool):
+            return frozenset()
+        ca = self._cat_cache.get(id(c))
+        if ca is None or ca[0] is not c:
+            s_ = set()
+            self.cond_atoms(c, s_)
+            ca = (c, frozenset(s_))
+            self._cat_cache[id(c)] = ca
+        return ca[1]
 
     def cond_atoms(self, c, acc):
         if isinstance(c, bool):
@@ -528,12 +581,26 @@ class LFDomain:
                     work.append(b)
         return seen
 
-    def check(self, path, conds, name="", timeout_ms=None, want_model=False):
-        """satisfiability of conds under atom bounds/definitions, the path condition and lemmas"""
+    def check(self, path, conds, name="", timeout_ms=None, want_model=False, relevant_only=False):
+        """satisfiability of conds under atom bounds/definitions, the path condition and lemmas.
+        relevant_only: drop path-condition conjuncts that mention atoms outside the query's own atoms
+        (fewer assumptions: `unsat` stays sound, `sat` may be an over-approximation)"""
         t0 = time.time()
         allc = list(conds) + list(self.lemmas)
         if path is not None:
-            allc += [c for c in path.pc if c not in conds]
+            extra = [c for c in path.pc if c not in conds and c is not True]
+            if relevant_only:
+                qa = set()
+                for c in conds:
+                    self.cond_atoms(c, qa)
+                qa = self.closure(qa)
+                kept = []
+                for c in extra:
+                    ca = self._catoms(c)
+                    if ca <= qa:
+                        kept.append(c)
+                extra = kept
+            allc += extra
         acc = set()
         for c in allc:
             self.cond_atoms(c, acc)
